@@ -203,6 +203,30 @@ def run(prop: str, tier: str) -> int:
                         prow.append({"id": len(prow) + 1, "letters": list(letters), "neg": neg, "bases": bases, "sparse_ids": sparse,
                                      "cleared": [p2q[g[3][0]] for g in full if g[0] == "clear"],
                                      "meas_qubit": p2q[log[k][3][0]], "pre": gate_rows(log[:k], p2q), "post": gate_rows(log[k + 1:], p2q)})
+        # several parity measurements one after the other (same and different qubits, one subroutine or separate flushes): every
+        # returned handle keeps reporting the parity of ITS measurement
+        nseq = 0
+        for s1, s2 in (("ZI", "-XI"), ("-ZI", "XI"), ("IZ", "-IZ"), ("ZI", "IX"), ("-X", "Z"), ("Y", "-Y")):
+            for o1, o2 in ((0, 1), (1, 0), (1, 1)):
+                for split in (False, True):
+                    conn = rig.VConnection("alice")
+                    conn.ex.meas_script = [o1, o2]
+                    qs = [Qubit(conn) for _ in range(len(s1.lstrip("-")))]
+                    try:
+                        m1 = parity_meas(qs, s1)
+                        if split:
+                            conn.flush()
+                        m2 = parity_meas(qs, s2)
+                        conn.flush()
+                        got = (int(m1), int(m2))
+                    except Exception as ex:
+                        V.add("parity-meas-raises", {"bases": f"{s1} then {s2}"}, f"{type(ex).__name__}: {ex}")
+                        continue
+                    nseq += 1
+                    want = (o1 ^ int(s1.startswith("-")), o2 ^ int(s2.startswith("-")))
+                    if got != want:
+                        V.add("parity-outcome-wrong", {"bases_shape": "two single-letter measurements in a row", "same_qubit": s1.lstrip("-").index(next(c_ for c_ in s1.lstrip("-") if c_ != "I")) == s2.lstrip("-").index(next(c_ for c_ in s2.lstrip("-") if c_ != "I"))},
+                              f"parity_meas({s1}) then parity_meas({s2}){' (separate flushes)' if split else ''}: measured bits {(o1, o2)}, handles read {got}, expected {want}")
         resp = C.run_tlc_sharded("ParityCheck", prow, tmp, shards=C.ncpu())
         badp = {}
         for v in resp.verdicts:
